@@ -1,5 +1,5 @@
 (* C05 — schedule independence. Statements only; proofs in Confluence.v / ConfluencePlan.v. *)
-From Shred Require Import Base SrcParams Plan PlanObs PlanLemmas PlanInv PlanLoc PlanBuild PlanProps Exec ExecProps ExecPlan Confluence ConfluencePlan.
+From Shred Require Import Base SrcParams Plan PlanObs PlanLemmas PlanInv PlanLoc PlanBuild PlanProps Exec ExecProps ExecPlan Confluence ConfluencePlan ExecObs NestedObs NestedExec TraceEquiv NestedConfluence.
 
 (* World = function from keys to values (any value type): resources and, under private keys,
    the state of every system.  [respects V R W f t]: the effect [f t] of system t changes only
@@ -41,6 +41,42 @@ Print Assumptions C05_batch_respects_its_union_accessor.
 
 (* non-vacuity: a counter increment respects (R, W) = ([], [k]) ... here: two writers of
    different keys and a reader *)
+(* ---- the general form: the final world depends only on the relative order of CONFLICTING systems ----
+   [pproj a b l]: the run order l restricted to the systems a and b.  Two run orders of any length (with
+   repetitions) that agree on the projection onto every single system and onto every pair of systems whose
+   accesses conflict end in the same world — for every value type and every family of respectful effects. *)
+Theorem C05_final_world_depends_only_on_the_order_of_conflicting_systems :
+  forall (V : Type) (R W : N -> list N) (f : N -> world V -> world V) u v,
+  Forall (respects V R W f) u -> Forall (respects V R W f) v ->
+  (forall a b, dep R W a b -> pproj a b u = pproj a b v) ->
+  forall w, weq V (run V f u w) (run V f v w).
+Proof. exact same_conflict_order. Qed.
+Print Assumptions C05_final_world_depends_only_on_the_order_of_conflicting_systems.
+
+(* ---- the whole tree ----
+   [ntr n rs tr]: tr is a nested trace of program rs (batches at any depth, inner dispatches repeated `count`
+   times, subtrees interleaved freely; NestedExec.v).  [rel tr]: the systems in the order in which they release,
+   i.e. in which their effects take place.  If the effect of every plain system respects its own declared
+   reads and writes (batch controllers and thread-local systems having no effect of their own), then EVERY
+   nested trace of the program — in particular the one of a sequential run — ends in the same world. *)
+Theorem C05_whole_tree_every_nested_trace_ends_in_the_same_world :
+  forall (V : Type) (f : N -> world V -> world V) rs,
+  wf rs -> (forall t, respects V (decl_reads rs) (decl_writes rs) f t) ->
+  forall n tr1 tr2, ntr n rs tr1 -> ntr n rs tr2 -> forall w, weq V (run V f (rel tr1) w) (run V f (rel tr2) w).
+Proof. exact nested_par_eq_seq_declared. Qed.
+Print Assumptions C05_whole_tree_every_nested_trace_ends_in_the_same_world.
+
+(* the same for any access that is covered by the declarations (also controllers with data of their own) *)
+Theorem C05_whole_tree_general :
+  forall (V : Type) (Rd Wr : N -> list N) (f : N -> world V -> world V) rs,
+  wf rs -> (forall t, respects V Rd Wr f t) ->
+  (forall a c, a <> c -> rw_conflict (Rd a) (Wr a) (Rd c) (Wr c) = true ->
+     exists ra rc, sub_reg ra rs /\ sub_reg rc rs /\ reg_tag ra = Some a /\ reg_tag rc = Some c /\
+                   ~ In a (subtree_tags rc) /\ ~ In c (subtree_tags ra) /\ reg_conflict ra rc = true) ->
+  forall n tr1 tr2, ntr n rs tr1 -> ntr n rs tr2 -> forall w, weq V (run V f (rel tr1) w) (run V f (rel tr2) w).
+Proof. exact nested_par_eq_seq. Qed.
+Print Assumptions C05_whole_tree_general.
+
 Example C05_example :
   let R := fun t : N => if (t =? 3)%N then [8%N] else [] in
   let W := fun t : N => if (t =? 1)%N then [8%N] else if (t =? 2)%N then [9%N] else [] in
